@@ -2,6 +2,9 @@
 #include "field.h"
 #include "atom.h"
 #include "core_parser.h"
+#ifdef ORATIO_VERIF
+#include "core.h"
+#endif
 #include <queue>
 
 namespace ratio
@@ -37,6 +40,9 @@ namespace ratio
 
         context ctx(new env(get_core(), context(&a)));
         ctx->exprs.emplace(THIS_KEYWORD, &a);
+#ifdef ORATIO_VERIF
+        get_core().verif_note(0, &a, this, ctx);
+#endif
         for (const auto &s : statements)
             dynamic_cast<const ast::statement *>(s)->execute(*this, ctx);
     }
